@@ -19,12 +19,19 @@ def describe_default(case):
     lhs, _, impl = case.partition(" | ")
     parts = lhs.split(" ")
     outp = [parts[0]]
+    def dec(p):
+        if p == "-" or (len(p) % 2 == 0 and all(c in "0123456789abcdef" for c in p) and len(p) >= 2):
+            return repr(hexdec(p))[1:]
+        return None
     for p in parts[1:]:
         try:
-            if p == "-" or (len(p) % 2 == 0 and all(c in "0123456789abcdef" for c in p) and len(p) >= 2):
-                outp.append(repr(hexdec(p))[1:])
+            d = dec(p)
+            if d is not None:
+                outp.append(d)
+            elif "," in p and all(dec(q) is not None for q in p.split(",")):
+                outp.append("[" + " ".join(dec(q) for q in p.split(",")) + "]")   # argv lists
             else:
-                outp.append(p)
+                outp.append(p if len(p) < 300 else p[:300] + "...")
         except Exception:
             outp.append(p)
     return " ".join(outp) + " => " + impl
